@@ -11,6 +11,7 @@ import (
 	"encoding/json"
 	"errors"
 	"fmt"
+	"runtime"
 	"strings"
 	"sync"
 	"time"
@@ -96,15 +97,31 @@ type Env struct {
 	lastTip         uint32 // last height answered by GetBlockHeight
 	Decode          map[string]DecodeRes
 
-	plan     Plan
-	served   Served
-	effects  []string        // Coq terms
-	effJSON  []interface{}   // readable form
-	sentLog  []sentMsg       // raw messages handed to the messenger during the current step (for step observers)
-	precheck map[string]bool // kinds answered permissively and not recorded (service-level pre-checks)
-	counter  int
-	crashAt  int // >0: panic when the crashAt-th effect is about to be recorded... (0 = never)
-	nEffects int
+	plan       Plan
+	served     Served
+	effects    []string        // Coq terms
+	effJSON    []interface{}   // readable form
+	sentLog    []sentMsg       // raw messages handed to the messenger during the current step (for step observers)
+	precheck   map[string]bool // kinds answered permissively and not recorded (service-level pre-checks)
+	counter    int
+	svc        SvcPlan
+	suspAtStep bool
+	crashAt    int // >0: panic when the crashAt-th effect is about to be recorded... (0 = never)
+	nEffects   int
+	// additive (crash steps): when set, the simulated crash ends the calling goroutine (runtime.Goexit) instead of
+	// panicking, for entry points that run the machine on a goroutine of their own (RecoverSwaps)
+	crashExit bool
+}
+
+// SvcPlan: answers for the service-level pre-checks (used by the svc harness); nil fields = permissive defaults
+type SvcPlan struct {
+	CanSpendErr   bool
+	Spendable     **uint64 // non-nil: answer (inner nil = error)
+	Receivable    **uint64
+	Probe         **bool
+	Balance       *uint64
+	BlockNetwork  chan struct{} // non-nil: wallet.GetNetwork()/GetAsset() blocks until closed (schedule control)
+	NetworkCalled chan struct{} // closed when the blocking call has been reached
 }
 
 type crashSignal struct{}
@@ -130,6 +147,9 @@ func (e *Env) effect(term string, js interface{}) {
 	e.nEffects++
 	if e.crashAt > 0 && e.nEffects >= e.crashAt {
 		e.mu.Unlock()
+		if e.crashExit {
+			runtime.Goexit()
+		}
 		panic(crashSignal{})
 	}
 	e.effects = append(e.effects, term)
@@ -183,7 +203,7 @@ func (s *fakeStore) UpdateData(sm *swap.SwapStateMachine) error {
 	e.served.Store = append(e.served.Store, ok)
 	e.mu.Unlock()
 	e.effect(fmt.Sprintf("EPersist %s %s %s", CoqStr(string(sm.Current)), coqData(sm.Data, string(sm.Current)), CoqBool(ok)),
-		map[string]interface{}{"e": "Persist", "state": string(sm.Current)})
+		map[string]interface{}{"e": "Persist", "state": string(sm.Current), "ok": ok})
 	if !ok {
 		return errFake
 	}
@@ -430,13 +450,24 @@ func (l *fakeLightning) RecoverClaimPayment(payreq string) (string, error) {
 	}
 	return *ans, nil
 }
-func (l *fakeLightning) CanSpend(amountMsat uint64) error { return nil }
-func (l *fakeLightning) Implementation() string           { return "FAKE" }
+func (l *fakeLightning) CanSpend(amountMsat uint64) error {
+	if l.env.svc.CanSpendErr {
+		return errFake
+	}
+	return nil
+}
+func (l *fakeLightning) Implementation() string { return "FAKE" }
 func (l *fakeLightning) SpendableMsat(scid string) (uint64, error) {
 	e := l.env
 	e.mu.Lock()
 	defer e.mu.Unlock()
 	if e.precheck["Spendable"] {
+		if e.svc.Spendable != nil {
+			if *e.svc.Spendable == nil {
+				return 0, errFake
+			}
+			return **e.svc.Spendable, nil
+		}
 		return 1 << 62, nil
 	}
 	var ans *uint64
@@ -452,12 +483,27 @@ func (l *fakeLightning) SpendableMsat(scid string) (uint64, error) {
 	}
 	return *ans, nil
 }
-func (l *fakeLightning) ReceivableMsat(scid string) (uint64, error) { return 1 << 62, nil }
+func (l *fakeLightning) ReceivableMsat(scid string) (uint64, error) {
+	e := l.env
+	if e.svc.Receivable != nil {
+		if *e.svc.Receivable == nil {
+			return 0, errFake
+		}
+		return **e.svc.Receivable, nil
+	}
+	return 1 << 62, nil
+}
 func (l *fakeLightning) ProbePayment(scid string, amountMsat uint64) (bool, string, error) {
 	e := l.env
 	e.mu.Lock()
 	defer e.mu.Unlock()
 	if e.precheck["Probe"] {
+		if e.svc.Probe != nil {
+			if *e.svc.Probe == nil {
+				return false, "", errFake
+			}
+			return **e.svc.Probe, "probe failed", nil
+		}
 		return true, "", nil
 	}
 	var ans *bool
@@ -658,6 +704,13 @@ func (c *fakeChain) GetAsset() string {
 	return ""
 }
 func (c *fakeChain) GetNetwork() string {
+	if ch := c.env.svc.BlockNetwork; ch != nil && c.chain == "btc" {
+		if c.env.svc.NetworkCalled != nil {
+			close(c.env.svc.NetworkCalled)
+			c.env.svc.NetworkCalled = nil
+		}
+		<-ch
+	}
 	if c.chain == "btc" {
 		return c.env.BtcNetwork
 	}
@@ -668,6 +721,9 @@ func (c *fakeChain) GetOnchainBalance() (uint64, error) {
 	e.mu.Lock()
 	defer e.mu.Unlock()
 	if e.precheck["Balance"] {
+		if e.svc.Balance != nil {
+			return *e.svc.Balance, nil
+		}
 		return 1 << 60, nil
 	}
 	var ans *uint64
